@@ -952,10 +952,24 @@ def uri_encode(v, s):
     return v.ctx.str_fn('uri_encode', s) if _sym(s) else v.real('falcon.util.uri:encode')(s)
 
 
+_NO_UPPER_ASCII = None
+
+
+def _lower_axioms(s_t, r_t, f):
+    """str.lower() leaves a string of ASCII characters other than A-Z as it is (so that counter-models replay: without it the
+    solver may 'lower' any Accept value into one that contains +json / +xml)."""
+    global _NO_UPPER_ASCII
+    if _NO_UPPER_ASCII is None:
+        _NO_UPPER_ASCII = z3.Star(z3.Union(z3.Range(z3.StringVal(chr(0)), z3.StringVal('@')), z3.Range(z3.StringVal('['), z3.StringVal(chr(127)))))
+    return [mk_bool(z3.Implies(z3.InRe(s_t, _NO_UPPER_ASCII), r_t == s_t))]
+
+
 def _error_setup(reg, ex):
     import xml.etree.ElementTree as et
 
     import falcon.util.uri as uri
+
+    ex.str_axioms['lower'] = _lower_axioms
 
     reg.add_model(uri.encode, lambda I, s: I.ctx.str_fn('uri_encode', s) if _sym(s) else uri.encode(s))
     import falcon.util.misc as misc
@@ -1450,7 +1464,7 @@ def default_chain(v, asgi):
     else:
         ex = mk_exc(v, Quit)
     v.expect_covers('status', 'status-with-headers', 'rendered', 'error-with-headers', 'json-500', 'json-error', 'not-handled',
-                    'nothing-acceptable', 'media-handler', 'xml-builtin', 'no-serializer')
+                    'nothing-acceptable', 'media-handler', 'xml-builtin' if xml else 'no-serializer')
     hdrs0 = copy_container(hdrs)
     R = v.get(app, '_error_handlers')
     R0, app0, ex0, resp0 = dict(R), snapshot(app), snapshot(ex), snapshot(resp)
@@ -1530,13 +1544,15 @@ def asgi_default_chain(v):
     default_chain(v, True)
 
 
-for _r in (0, 1, 2):  # (one harness per set of registered media types: run time)
-    harness(PROP, APP + '._handle_exception', name='wsgi_default_chain[registered=%d]' % _r, setup=_chain_setup, inline=CHAIN_INLINE,
-            fix={'registered-media-types': _r})(wsgi_default_chain)
-    harness(PROP, AAPP + '._handle_exception', name='asgi_default_chain[registered=%d]' % _r, setup=_chain_setup,
-            inline=CHAIN_INLINE + [APP + '.__init__', AAPP + '.add_error_handler', AAPP + '._http_status_handler', AAPP + '._http_error_handler',
-                                   AAPP + '._python_error_handler'] + ASYNC_INLINE,
-            fix={'registered-media-types': _r})(asgi_default_chain)
+for _x in (0, 1):  # (one harness per response-options configuration -- XML on/off x set of registered media types: run time)
+    for _r in (0, 1, 2):
+        _fix = {'xml_error_serialization': _x, 'registered-media-types': _r}
+        harness(PROP, APP + '._handle_exception', name='wsgi_default_chain[xml=%d,registered=%d]' % (_x, _r), setup=_chain_setup, inline=CHAIN_INLINE,
+                fix=_fix)(wsgi_default_chain)
+        harness(PROP, AAPP + '._handle_exception', name='asgi_default_chain[xml=%d,registered=%d]' % (_x, _r), setup=_chain_setup,
+                inline=CHAIN_INLINE + [APP + '.__init__', AAPP + '.add_error_handler', AAPP + '._http_status_handler', AAPP + '._http_error_handler',
+                                       AAPP + '._python_error_handler'] + ASYNC_INLINE,
+                fix=_fix)(asgi_default_chain)
 
 
 
